@@ -250,6 +250,10 @@ class ZoneStatusDecoder(
             )
             self._mismatch_logged = True
 
+        # Skip the non-repeating ("normal") data announced by the console; no
+        # fields are currently defined for it.
+        buffer = buffer[header.non_repeat_length :]
+
         zones: list[ZoneStatusData] = []
         for _ in range(header.repeat_count):
             (
